@@ -840,6 +840,13 @@ func (p *pristine) apply(st *dirState, op Op, seed int64) error {
 		case "len-huge":
 			f := flds[op.A-1]
 			st.payload = append(append(append([]byte(nil), base[:f[0]]...), uvarint(1<<62)...), base[f[1]:]...)
+		case "len-top":
+			f := flds[op.A-1]
+			v := uint64(1) << 63
+			if op.C == 2 {
+				v = ^uint64(0)
+			}
+			st.payload = append(append(append([]byte(nil), base[:f[0]]...), uvarint(v)...), base[f[1]:]...)
 		case "trunc-time":
 			st.payload = base[:len(base)-op.A]
 		case "trailing":
